@@ -521,10 +521,10 @@ def _num_like(b, r):
 def v_cumsum(ex, st, o, args, kwargs, node):
     v = st.get(o)
     used(ex, "cumsum()[k] = sum of the first k+1 elements")
-    P, _params = vec_prefix(ex, st, v, lambda a, b: a + b, "cumsum")
+    # the same prefix-sum function as sum()/psum() of this vector: cumsum()[-1] and sum() are then literally equal
+    P, _params = prefix_sum_fn(ex, st, v)
     if _params:
         raise Unsupported("cumsum of a vector defined under a quantifier")
-    st.assume(P(0) == 0)
     # every prefix of a sum of non-negative terms is non-negative (lemma psum_nonneg, instantiated at this vector)
     kk, mm = fresh(I, "k"), fresh(I, "m")
     with binding(kk):
@@ -533,6 +533,102 @@ def v_cumsum(ex, st, o, args, kwargs, node):
         allnn = z3.ForAll([kk], z3.Implies(z3.And(0 <= kk, kk < to_z3(v.n)), e0 >= 0))
         st.assume(z3.Implies(allnn, z3.ForAll([mm], z3.Implies(z3.And(0 <= mm, mm <= to_z3(v.n)), P(mm) >= 0))))
     return st.alloc(Vec(v.n, lambda k: P(to_z3(k) + 1), idx=v.idx, kind=v.kind))
+
+
+@vm("argsort")
+def v_argsort(ex, st, o, args, kwargs, node):
+    v = st.get(o)
+    if v.kind == "series" or args or kwargs:
+        raise Unsupported("argsort: plain ndarray.argsort() only")
+    probe = v.at(z3.IntVal(0))
+    if isinstance(probe, NF) or not is_z3(to_z3(probe)) or to_z3(probe).sort() == B:
+        raise Unsupported("argsort of a nullable / boolean vector")
+    used(ex, "ndarray.argsort() = a permutation of the positions that lists the values in non-decreasing order "
+             "(no stability assumed)")
+    n = to_z3(v.n)
+    P, Q = z3.Function(fresh_name("argsort"), I, I), z3.Function(fresh_name("argsort_inv"), I, I)
+    k, a, b = fresh(I, "k"), fresh(I, "a"), fresh(I, "b")
+    inr = z3.And(0 <= k, k < n)
+    st.assume(z3.ForAll([k], z3.Implies(inr, z3.And(0 <= P(k), P(k) < n, Q(P(k)) == k)), patterns=[P(k)]))
+    st.assume(z3.ForAll([k], z3.Implies(inr, z3.And(0 <= Q(k), Q(k) < n, P(Q(k)) == k)), patterns=[Q(k)]))
+    with binding(a, b):
+        st.assume(z3.ForAll([a, b], z3.Implies(z3.And(0 <= a, a <= b, b < n), to_z3(v.at(P(a))) <= to_z3(v.at(P(b))))))
+    return st.alloc(Vec(v.n, lambda j: P(to_z3(j)), kind="array"))
+
+
+@vm("argmax")
+def v_argmax(ex, st, o, args, kwargs, node):
+    v = st.get(o)
+    if v.kind == "series" or args or kwargs:
+        raise Unsupported("argmax: plain ndarray.argmax() only")
+    probe = v.at(z3.IntVal(0))
+    if isinstance(probe, NF):
+        raise Unsupported("argmax of a nullable vector")
+    used(ex, "ndarray.argmax() = the first position holding the maximum (True > False for boolean arrays)")
+    line = getattr(node, "lineno", None)
+    n = to_z3(v.n)
+    ex.oblig("nonempty", "L%s" % line, st, n > 0, line=line)
+    w, k = fresh(I, "argmax"), fresh(I, "k")
+    st.assume(z3.And(0 <= w, w < n))
+    with binding(k):
+        e = to_z3(v.at(k))
+    ew = to_z3(v.at(w))
+    inr = z3.And(0 <= k, k < n)
+    if e.sort() == B:
+        body = z3.Implies(inr, z3.And(z3.Implies(e, ew), z3.Implies(k < w, z3.Not(e))))
+        st.assume(z3.Implies(z3.Not(ew), w == 0))
+    else:
+        body = z3.Implies(inr, z3.And(e <= ew, z3.Implies(k < w, e < ew)))
+    st.assume(z3.ForAll([k], body))
+    # the same fact over absolute positions when the elements are those of a slice x[c + k] (a change of variable
+    # k := k2 - c, so that the solver can instantiate it at a position of the underlying vector)
+    off = _single_offset(e, k)
+    if off is not None:
+        k2 = fresh(I, "k")
+        st.assume(z3.ForAll([k2], z3.simplify(z3.substitute(body, (k, k2 - off)), som=True)))
+    return w
+
+
+def _single_offset(e, k):
+    """c if every occurrence of k in e is inside one and the same sum k + c (c free of k), else None"""
+    found, bad, seen = [], [False], set()
+
+    def mentions(t):
+        return any(x.eq(k) for x in _subterms(t))
+
+    def walk(t):
+        if t.get_id() in seen:
+            return
+        seen.add(t.get_id())
+        if t.eq(k):
+            bad[0] = True
+            return
+        if z3.is_app(t) and t.decl().kind() == z3.Z3_OP_ADD and any(c.eq(k) for c in t.children()):
+            rest = [c for c in t.children() if not c.eq(k)]
+            if len(rest) + 1 != t.num_args() or any(mentions(c) for c in rest):
+                bad[0] = True
+                return
+            c = rest[0] if len(rest) == 1 else z3.Sum(rest)
+            if not any(c.eq(x) for x in found):
+                found.append(c)
+            return
+        for c in t.children():
+            walk(c)
+    walk(e)
+    if bad[0] or len(found) != 1:
+        return None
+    return found[0]
+
+
+def _subterms(t, seen=None):
+    seen = set() if seen is None else seen
+    if t.get_id() in seen:
+        return
+    seen.add(t.get_id())
+    yield t
+    for c in t.children():
+        for x in _subterms(c, seen):
+            yield x
 
 
 @vm("cummax")
@@ -1838,13 +1934,23 @@ def gb_apply(ex, st, o, args, kwargs, node):
             ex.oblig("call_pre", "%s@L%s(group)" % (c.key.split("::")[1], line), s2, pre, line=line)
         ex.assume_mode += 1
         try:
-            posts = [_b(ex.spec_formula(txt, dict(env), s2)) for _lab, txt in c.ensures]
+            posts = []
+            for _lab, txt in c.ensures:
+                n0 = len(s2.pc)
+                pf = _b(ex.spec_formula(txt, dict(env), s2))
+                posts.append((_lab, list(s2.pc[n0:]), pf))
         finally:
             ex.assume_mode -= 1
-        extra = s2.pc[npc:]
     ex.ctx.used_contracts.add(c.key)
     st.heap.update({k: v for k, v in s2.heap.items() if k not in st.heap})
-    st.assume(z3.ForAll([rr], z3.Implies(z3.And(0 <= rr, rr < G), z3.And(list(extra) + posts + [z3.BoolVal(True)]))))
+    # one assumption per clause of f (tagged with the clause's label, so that a clause of the caller can name what it needs)
+    tags = dict(st.ghost.get("inv_tags", {}))
+    for _lab, defs, pf in posts:
+        fact = z3.ForAll([rr], z3.Implies(z3.And(0 <= rr, rr < G), z3.And(list(defs) + [pf])))
+        st.assume(fact)
+        tags[fact.get_id()] = (_lab, fact, "callee")
+    st.ghost = dict(st.ghost)
+    st.ghost["inv_tags"] = tags
     st.ghost = dict(st.ghost)
     st.ghost["view_groups"] = (G, lo)
     return st.alloc(Tab(G, out_cols, Idx("groups"), dict(c.returns.cols)))
